@@ -25,7 +25,7 @@ from ..zone import check_zone
 BASELINE = os.path.join(VERIF, "rules", "site_baseline.json")
 
 ALWAYS = ("assert:bounds", "assert:div_zero", "assert:rem_zero", "call:slice-index", "call:slice-op",
-          "call:vec-op", "call:refcell", "call:div-call")
+          "call:vec-op", "call:refcell", "call:div-call", "call:clamp-call")
 ARITH = ("assert:overflow", "assert:overflow_neg", "call:arith-call", "call:debug-assert")
 DIVLIKE = ("div_euclid", "rem_euclid", "ilog", "ilog2", "ilog10", "isqrt", "div", "rem", "div_assign", "rem_assign")
 
@@ -346,8 +346,8 @@ def run_engine_fixture(chk, rid="engine-fixture"):
                 chk.ob(rid, f"idiom {name}: {len(res.sites) - len(bad)} of {len(res.sites)} site(s) proved", not bad and bool(res.sites),
                        key=f"idiom|{name}", file=b.file, line=b.lo, fn=b.path,
                        detail="a standard safe idiom is no longer proved: " + "; ".join(s["why"] for s in bad)[:200])
-        chk.floor(rid, "traps", nb, 42)
-        chk.floor(rid, "safe idioms", ng, 28)
+        chk.floor(rid, "traps", nb, 44)
+        chk.floor(rid, "safe idioms", ng, 30)
         # the loop census on its own fixtures
         from ..loops import collect_loops
         lsites, _ = collect_loops(facts, [facts.crates[0]])
